@@ -138,6 +138,19 @@ func c13Apply(st string, op StoreOp) (string, string) {
 			return fmt.Sprintf("[%d]", v-1000), st
 		}
 		return "d", st
+	case "getbool":
+		return "false", st // values are never bools
+	case "getmapor":
+		return "dm", st // values are never map[string]any
+	case "bind":
+		v, okk := m[op.Key]
+		switch {
+		case !okk:
+			return "err", st
+		case v >= 1000:
+			return fmt.Sprintf("[%d]", v-1000), st
+		}
+		return strconv.Itoa(v), st
 	}
 	panic("unknown op " + op.Op)
 }
@@ -212,6 +225,30 @@ func c13Exec(s *flyt.SharedStore, op StoreOp) string {
 		return fmt.Sprint(s.GetFloat64(op.Key))
 	case "getstring":
 		return s.GetString(op.Key)
+	case "getbool":
+		return strconv.FormatBool(s.GetBool(op.Key))
+	case "getmapor":
+		if m := s.GetMapOr(op.Key, map[string]any{"dm": 1}); len(m) == 1 && m["dm"] == 1 {
+			return "dm"
+		}
+		return "?"
+	case "bind":
+		// the JSON path: an int arrives as float64, a []int as []any of float64
+		var dst any
+		if err := s.Bind(op.Key, &dst); err != nil {
+			return "err"
+		}
+		switch x := dst.(type) {
+		case float64:
+			return strconv.Itoa(int(x))
+		case []any:
+			if len(x) == 1 {
+				if f, isF := x[0].(float64); isF {
+					return fmt.Sprintf("[%d]", int(f))
+				}
+			}
+		}
+		return "?"
 	case "getsliceor":
 		v := s.GetSliceOr(op.Key, []any{"d"})
 		if len(v) == 1 && v[0] == "d" {
@@ -344,7 +381,7 @@ func renderHist(h []HistOp) string {
 
 func genC13(rt *rapid.T) C13Case {
 	nt := rapid.IntRange(2, 6).Draw(rt, "threads")
-	opsAll := []string{"set", "set", "get", "has", "delete", "len", "keys", "getall", "merge", "merge", "clear", "getint", "getintor", "getfloat", "getstring", "getsliceor", "getsliceor"}
+	opsAll := []string{"set", "set", "get", "has", "delete", "len", "keys", "getall", "merge", "merge", "clear", "getint", "getintor", "getfloat", "getstring", "getsliceor", "getsliceor", "getbool", "getmapor", "bind", "bind"}
 	var p C13Program
 	for ti := 0; ti < nt; ti++ {
 		no := rapid.IntRange(1, 8).Draw(rt, "nops")
